@@ -828,6 +828,58 @@ let suite_sched (line : string) : string =
       Printf.sprintf "%s %s" id (String.concat " " res)
   | _ -> failwith "bad sched case"
 
+(* ---------- suite: codec ---------- *)
+let show_wops (ops : wop list) : string =
+  if ops = [] then "-"
+  else String.concat ";" (List.map (function
+    | WPut (k, v) -> "x" ^ hex_of_bytes k ^ "=x" ^ hex_of_bytes v
+    | WDel k -> "x" ^ hex_of_bytes k) ops)
+
+let show_vchange (c : vchange) : string =
+  let o = function None -> "-" | Some v -> string_of_n v in
+  let dels = List.sort compare (List.map (fun (l, nn) -> (int_of_n l, string_of_n nn, nn)) c.vc_deleted) in
+  String.concat ","
+    ([ "w=" ^ o c.vc_wal; "pw=" ^ o c.vc_prev_wal; "cf=" ^ o c.vc_curr_file; "ps=" ^ o c.vc_prev_seq ]
+     @ List.map (fun (l, k) -> Printf.sprintf "P%d:%s" (int_of_n l) (show_key k)) c.vc_pointers
+     @ List.map (fun (l, sn, _) -> Printf.sprintf "D%d:%s" l sn) (List.sort (fun (l1, _, n1) (l2, _, n2) -> compare (l1, int_of_n n1) (l2, int_of_n n2)) dels)
+     @ List.map (fun (l, f) -> Printf.sprintf "N%d:%s:%s:%s:%s" (int_of_n l) (string_of_n f.fm_num) (string_of_n f.fm_size) (show_key f.fm_small) (show_key f.fm_large)) c.vc_new)
+
+let suite_codec (line : string) : string =
+  match split_nonempty ' ' line with
+  | id :: "B" :: seq :: cut :: rest ->
+      let ops = match rest with [] -> [] | b :: _ -> parse_wops b in
+      let bytes = batch_encode (n_of_string seq) ops in
+      let show = function None -> "err" | Some (s, o) -> string_of_n s ^ "|" ^ show_wops o in
+      Printf.sprintf "%s x%s %s %s | none" id (hex_of_bytes bytes) (show (batch_decode bytes))
+        (show (batch_decode (take (int_of_string cut) bytes)))
+  | id :: "V" :: cut :: toks ->
+      let c = ref vc_empty in
+      let opt s = if s = "-" then None else Some (n_of_string s) in
+      let pref p t = String.length t >= String.length p && String.sub t 0 (String.length p) = p in
+      let after p t = String.sub t (String.length p) (String.length t - String.length p) in
+      let key3 a b cc = { ik_user = parse_bytes a; ik_seq = n_of_string b; ik_op = n_of_int (int_of_string cc) } in
+      List.iter
+        (fun t ->
+          let v = !c in
+          if pref "w=" t then c := { v with vc_wal = opt (after "w=" t) }
+          else if pref "pw=" t then c := { v with vc_prev_wal = opt (after "pw=" t) }
+          else if pref "cf=" t then c := { v with vc_curr_file = opt (after "cf=" t) }
+          else if pref "ps=" t then c := { v with vc_prev_seq = opt (after "ps=" t) }
+          else
+            match t.[0], String.split_on_char ':' (String.sub t 1 (String.length t - 1)) with
+            | 'P', [ l; a; b; cc ] -> c := { v with vc_pointers = v.vc_pointers @ [ (n_of_string l, key3 a b cc) ] }
+            | 'D', [ l; nn ] -> c := { v with vc_deleted = v.vc_deleted @ [ (n_of_string l, n_of_string nn) ] }
+            | 'N', [ l; nn; sz; a1; a2; a3; b1; b2; b3 ] ->
+                c := { v with vc_new = v.vc_new @ [ (n_of_string l, { fm_num = n_of_string nn; fm_size = n_of_string sz; fm_small = key3 a1 a2 a3; fm_large = key3 b1 b2 b3 }) ] }
+            | _ -> failwith ("bad token " ^ t))
+        toks;
+      let bytes = vchange_encode !c in
+      let show = function None -> "err" | Some v -> show_vchange v in
+      let enc = if List.length !c.vc_deleted <= 1 then "x" ^ hex_of_bytes bytes else "len" ^ string_of_int (List.length bytes) in
+      Printf.sprintf "%s %s %s %s | none" id enc (show (vchange_decode bytes))
+        (if List.length !c.vc_deleted <= 1 then show (vchange_decode (take (int_of_string cut) bytes)) else "skip")
+  | _ -> failwith "bad codec case"
+
 let () =
   let suite = Sys.argv.(1) in
   let f =
@@ -846,6 +898,7 @@ let () =
     | "wspec" -> suite_wspec
     | "lock" -> suite_lock
     | "sched" -> suite_sched
+    | "codec" -> suite_codec
     | _ -> failwith ("unknown suite " ^ suite)
   in
   try
